@@ -84,6 +84,8 @@ type world struct {
 	dead     bool // a call of this history never returns: no further operations
 }
 
+var lastPayload []byte
+
 // lostN counts histories ended by a Dequeue that lost its queue; generation stops after a few
 var lostN int
 
@@ -1008,6 +1010,34 @@ func famRetained(c *hx.Ctx) {
 	}
 }
 
+// F2c: the same payload published again on a topic with another QoS / retain flag (a client republishing its state):
+// the retained message is the LAST retained publish, with that publish's QoS
+func famSamePayload(c *hx.Ctx) {
+	k := 0
+	for _, t := range []string{"a", "a/b", "/a"} {
+		for q1 := 0; q1 < 3; q1++ {
+			for q2 := 0; q2 < 3; q2++ {
+				for v := 0; v < 3; v++ {
+					k++
+					p := payload()
+					ops := []string{fmt.Sprintf("pub 9 %s,%s,%d,1", hxs(t), p, q1)}
+					switch v {
+					case 0: // same payload, other QoS, retained again
+						ops = append(ops, fmt.Sprintf("pub 9 %s,%s,%d,1", hxs(t), p, q2))
+					case 1: // same payload without the flag (must not touch the store), then retained with the other QoS
+						ops = append(ops, fmt.Sprintf("pub 9 %s,%s,%d,0", hxs(t), p, q2), fmt.Sprintf("pub 9 %s,%s,%d,1", hxs(t), p, q2))
+					case 2: // cleared in between
+						ops = append(ops, fmt.Sprintf("pub 9 %s,-,%d,1", hxs(t), q2), fmt.Sprintf("pub 9 %s,%s,%d,1", hxs(t), p, q2))
+					}
+					ops = append(ops, "setup 1 "+hxs("x")+" 0 0", fmt.Sprintf("sub 1 %s,2", hxs("#")), "deq 1",
+						fmt.Sprintf("pub 1 %s,%s,%d,1", hxs(t), p, (q2+1)%3), fmt.Sprintf("sub 1 %s,%d", hxs(t), k%3), "deq 1", "deq 1")
+					runHist(c, hist{cap: 4, ops: ops}, "samepayload")
+				}
+			}
+		}
+	}
+}
+
 // F2b: many retained topics (more than any plausible replay limit), replayed by one- and multi-level wildcards
 func famManyRetained(c *hx.Ctx) {
 	for v := 0; v < 3; v++ {
@@ -1180,8 +1210,15 @@ func famRandom(c *hx.Ctx, count, maxLen int) {
 					pn = pubs[r.Intn(len(pubs))]
 				}
 				m := packet.Message{Topic: nameU[r.Intn(len(nameU))], QOS: packet.QOS(r.Intn(3)), Retain: r.Intn(3) == 0}
-				if r.Intn(6) != 0 {
+				switch r.Intn(8) {
+				case 0: // empty
+				case 1: // the payload published last time once more (same state republished, other QoS / flag / topic)
+					m.Payload = lastPayload
+				default:
 					m.Payload = hx.Unhx(payload())
+				}
+				if len(m.Payload) > 0 {
+					lastPayload = m.Payload
 				}
 				w.opPub(pn, m)
 			case x < 90: // dequeue
@@ -1275,6 +1312,7 @@ func runMB(c *hx.Ctx) {
 	famFailedSetup(c)
 	famSizes(c)
 	famRetained(c)
+	famSamePayload(c)
 	famManyRetained(c)
 	if c.Thorough() {
 		famExhaustive(c, 4)
